@@ -239,6 +239,8 @@ class DomB:
     def fn(self, name, a):
         if name == "recip":
             return self.recip(a)
+        if name == "re":
+            return a
         if a.ex is not None:
             x = a.ex
             sgn = [ZERO] if x == 0 else ([POS] if x > 0 else [NEG])
